@@ -1,10 +1,292 @@
 import Driver.Common
-/-! Driver ops of this group; `handle op args` returns `none` for ops it does not know. -/
+import GoSSE.Model.Joe
+/-!
+Driver op `JOE <seed> <big>` — the observation (`GO=<facts> ## <scenario> ## <trace>`) is the
+recorded trace of a real run. `M` = is the trace a run of the transition system of
+`GoSSE.Model.Joe` (trace inclusion, modulo reordering of events of different goroutines: the
+recorder's global order is a linearisation of hook *records*, not of the operations they
+follow); `S` = the property predicates of C03/C04/C06/C07/C17 evaluated on the trace.
+-/
 namespace Driver.JoeD
-open GoSSE Driver
+open GoSSE.Model.Joe Driver
+
+/-- which goroutine an event belongs to (program order is kept within one) -/
+inductive Proc | loop | sub (i : Nat) | pub (p : Nat) | shut (k : Nat) | env (n : Nat)
+deriving DecidableEq, Repr
+
+inductive Ev
+  | lab (l : Label)                       -- a transition of the model
+  | fan (i : Nat) (p : Option Nat) (sendOk flushOk : Bool)  -- a fan-out step, with the message seen
+  | subRet (i : Nat) (r : String)         -- Subscribe returned r: checked against the model's pc
+  | pubRet (p : Nat) (r : String)
+  | shutRet (k : Nat) (r : String)
+  | skip
+deriving Repr
+
+structure Scenario where
+  rep : String := "none"
+  auto : Bool := false
+  subTopics : List (List Nat) := []
+  subLast : List String := []
+  pubTopics : List (List Nat) := []
+deriving Repr
+
+def natsOf (s : String) : List Nat :=
+  if s == "-" || s == "" then [] else (s.splitOn ".").filterMap String.toNat?
+
+def parseScenario (s : String) : Scenario :=
+  let kv := (s.splitOn ";").map fun x => match x.splitOn "=" with
+    | [k, v] => (k, v)
+    | _ => ("", "")
+  let get (k : String) := ((kv.find? (·.1 == k)).map (·.2)).getD "-"
+  let items (v : String) := if v == "-" then [] else v.splitOn "|"
+  let subs := (items (get "subs")).map fun x => x.splitOn "/"
+  { rep := get "rep", auto := get "auto" == "1",
+    subTopics := subs.map fun f => natsOf (f.headD ""),
+    subLast := subs.map fun f => (f.drop 1).headD "-",
+    pubTopics := (items (get "pubs")).map fun x => natsOf ((x.splitOn "/").headD "") }
+
+def numAfter (s : String) (n : Nat) : Nat := ((s.drop n).toString.toNat?).getD 0
+
+def unknownPub : Nat := 999999
+
+/-- replay calls are `ws<i>:<p>:<ok>` / `wf<i>:<ok>` joined by `.` -/
+def parseCalls (s : String) : List Call :=
+  if s == "-" then [] else (s.splitOn ".").filterMap fun c =>
+    match c.splitOn ":" with
+    | [a, p, ok] => if a.startsWith "ws" then some (.send ((p.toNat?).getD unknownPub) (ok == "1")) else none
+    | [a, ok] => if a.startsWith "wf" then some (.flush (ok == "1")) else none
+    | _ => none
+
+def parseEv (s : String) : Proc × Ev :=
+  let f := s.splitOn ":"
+  let h := f.headD ""
+  let tag := (h.take 2).toString
+  let n := numAfter h 2
+  let arg (k : Nat) := (f.drop k).headD ""
+  match tag with
+  | "sc" => (.sub n, .lab (.subCall n))
+  | "sa" =>
+    let o := f.getLastD ""
+    let mid := ":".intercalate ((f.drop 1).dropLast)
+    let ro : ROutcome := if o == "err" then .err else if o == "panic" then .panic else .ok
+    (.loop, .lab (.subAccept n (parseCalls mid) ro))
+  | "se" => (.sub n, .lab (.subClosedEarly n))
+  | "sk" => (.sub n, .lab (.subSeeCancel n))
+  | "sr" => (.sub n, .lab (.subRecv n))
+  | "ua" => (.loop, .lab (.unsubAccept n))
+  | "cx" => (.env n, .lab (.cancel n))
+  | "sR" => (.sub n, .subRet n (arg 1))
+  | "pc" => (.pub n, .lab (.pubCall n))
+  | "pa" =>
+    let o := arg 1
+    (.loop, .lab (.pubAccept n (if o == "err" then .err else if o == "panic" then .panic else .ok 0)))
+  | "pe" => (.pub n, .lab (.pubClosedEarly n))
+  | "pR" => (.pub n, .pubRet n (arg 1))
+  | "fs" =>
+    let fl := arg 2
+    (.loop, .fan n (arg 1).toNat? (fl.startsWith "1") (fl == "11"))
+  | "fr" => (.loop, .lab .fanRemove)
+  | "fd" => (.loop, .lab .fanDone)
+  | "lx" => (.loop, .lab .loopExit)
+  | "hc" => (.shut n, .lab (.shutCall n))
+  | "hC" => (.shut n, .lab (.shutClose n))
+  | "hr" => (.shut n, .lab (.shutRecovered n))
+  | "hs" => (.shut n, .lab (.shutSeeClosed n))
+  | "hx" => (.shut n, .lab (.shutCtx n))
+  | "hn" => (.env (100000 + n), .lab (.shutCancel n))
+  | "hR" => (.shut n, .shutRet n (arg 1))
+  | _ => (.env unknownPub, .skip)
+
+def errStr : Option Err → String
+  | none => "nil"
+  | some (.own _) => "own"
+  | some (.replay _) => "replay"
+  | some (.put _) => "put"
+  | some .closed => "closed"
+  | some .noTopic => "notopic"
+  | some (.ctx _) => "ctx"
+
+/-- apply one event to the model state; `none` = not enabled (now) -/
+def applyEv (s : St) : Ev → Option St
+  | .lab l => step s l
+  | .fan i p sendOk flushOk =>
+    match s.joe with
+    | .fanout cur _ => if p == some cur then step s (.fanStep i sendOk flushOk) else none
+    | _ => none
+  | .subRet i r =>
+    match (s.subs i).pc with
+    | .returned e =>
+      -- a replayer hands back the subscriber's own Send/Flush error as Replay's error
+      if errStr e == r || (errStr e == "replay" && r == "own") then some s else none
+    | _ => none
+  | .pubRet p r =>
+    -- Publish's own receive from `errs` and the ErrNoTopic early return have no hook: fold them in
+    let s := match (s.pubs p).pc with
+      | .handed _ => (step s (.pubRecv p)).getD s
+      | .start => if r == "notopic" then (step s (.pubNoTopic p)).getD s else s
+      | _ => s
+    match (s.pubs p).pc with
+    | .returned e => if errStr e == r then some s else none
+    | _ => none
+  | .shutRet k r =>
+    match (s.shuts k).pc with
+    | .returned e => if errStr e == r then some s else none
+    | _ => none
+  | .skip => some s
+
+/-- Trace inclusion with deferral: repeatedly take the first pending event that is enabled and
+is the earliest pending event of its own goroutine. -/
+partial def validate (s : St) (pending : List (Proc × Ev)) (steps : Nat) : String × St :=
+  if bad s then (s!"reject: model reached a panicked/blocked state after {steps} steps", s) else
+  let rec pick (seen : List Proc) (before : List (Proc × Ev)) : List (Proc × Ev) → Option (St × List (Proc × Ev))
+    | [] => none
+    | (pr, e) :: t =>
+      if seen.contains pr then pick seen ((pr, e) :: before) t
+      else match applyEv s e with
+        | some s' => some (s', before.reverse ++ t)
+        | none => pick (pr :: seen) ((pr, e) :: before) t
+  match pending with
+  | [] => ("accept", s)
+  | (pr, e) :: _ =>
+    match pick [] [] pending with
+    | some (s', rest) => validate s' rest (steps + 1)
+    | none => (s!"reject: after {steps} steps no pending event is enabled; first pending: {repr pr} {repr e}", s)
+
+/-- capacity-N FIFO of publications for the `finite:N` replayer (ReplaySpec instance) -/
+def pushStore (cap : Nat) (store : List Nat) (p : Nat) : List Nat :=
+  let s := store ++ [p]
+  s.drop (s.length - cap)
+
+/-- what a conforming replayer sends for a presented ID: the stored publications after it -/
+def candidates (auto : Bool) (log store : List Nat) (last : String) : List Nat :=
+  if last == "-" || last == "x" then [] else
+  let k := numAfter last 1
+  if auto then
+    -- automatic IDs: the ID k denotes the k-th accepted publication; an ID below the oldest stored
+    -- one replays everything stored (recorded reading, DESIGN §6/C08)
+    match log[k]? with
+    | some p => if store.contains p then (store.dropWhile (· != p)).drop 1 else
+                  if store.isEmpty then [] else store
+    | none => []
+  else
+    if store.contains k then (store.dropWhile (· != k)).drop 1 else []
+
+structure Obs where
+  log : List Nat := []
+  store : List Nat := []
+  fanCur : Option Nat := none
+  /-- per sub: (registered at log length, end at log length, live sends seen, replayed calls, failed) -/
+  reg : List (Nat × Nat) := []
+  ended : List (Nat × Nat) := []
+  live : List (Nat × Nat) := []        -- (sub, pub) in order
+  viol : List String := []
+  returnedSubs : List Nat := []
+  cancelled : List Nat := []
+  ownFailed : List Nat := []
+  faults : Bool := false
+
+def intersects (a b : List Nat) : Bool := a.any fun x => b.contains x
+
+/-- The property predicates, evaluated on the recorded order of the loop's events (a faithful
+order: they all come from Joe's single goroutine) and the harness's return records. -/
+def judge (sc : Scenario) (evs : List (Proc × Ev)) : List String :=
+  let cap : Option Nat := match sc.rep.splitOn ":" with
+    | ["finite", n] => n.toNat?
+    | _ => none
+  let o : Obs := evs.foldl (fun o pe =>
+    match pe.2 with
+    | .lab (.subAccept i rc ro) =>
+      let o := if ro != .ok then { o with faults := true } else o
+      -- C04: what was replayed
+      let sends := rc.filterMap fun c => match c with | .send p _ => some p | _ => none
+      let anyFail := rc.any fun c => match c with | .send _ ok => !ok | .flush ok => !ok
+      let o := if sends.contains unknownPub then
+          { o with viol := s!"C04:sub{i} was replayed a message that no Put returned" :: o.viol } else o
+      let o := match cap with
+        | some _ =>
+          let want := (candidates sc.auto o.log o.store ((sc.subLast[i]?).getD "-")).filter fun p =>
+            intersects ((sc.subTopics[i]?).getD []) ((sc.pubTopics[p]?).getD [])
+          if (!anyFail && sends != want) || (anyFail && !(sends.isPrefixOf want)) then
+            { o with viol := s!"C04:sub{i} replayed {sends}, expected {want} (store {o.store}, presented {(sc.subLast[i]?).getD "-"})" :: o.viol }
+          else o
+        | none =>
+          if !rc.isEmpty && sc.rep != "none" && !sc.rep.startsWith "finite" then
+            { o with viol := s!"C04:sub{i} got replay calls from a replayer that replays nothing" :: o.viol } else o
+      let o := if anyFail then { o with ownFailed := i :: o.ownFailed, faults := true } else o
+      if ro == .err then o else { o with reg := (i, o.log.length) :: o.reg }
+    | .lab (.pubAccept p po) =>
+      let o := if po != .ok 0 then { o with faults := true } else o
+      let store := match cap, po with
+        | some c, .ok _ => pushStore c o.store p
+        | none, .ok _ => if sc.rep == "none" then o.store else o.store ++ [p]
+        | _, _ => o.store
+      { o with log := o.log ++ [p], store := store, fanCur := some p }
+    | .fan i p sendOk flushOk =>
+      let o := match p with
+        | some q => { o with live := o.live ++ [(i, q)] }
+        | none => { o with viol := s!"C04:sub{i} was sent a message that is neither published nor returned by Put" :: o.viol }
+      let o := if o.returnedSubs.contains i then
+        { o with viol := s!"C06:sub{i} was written to after its Subscribe returned" :: o.viol } else o
+      if sendOk && flushOk then o
+      else { o with ended := (i, o.log.length) :: o.ended, ownFailed := i :: o.ownFailed, faults := true }
+    | .lab (.unsubAccept i) => if (o.ended.find? (·.1 == i)).isSome then o else { o with ended := (i, o.log.length) :: o.ended }
+    | .lab .loopExit =>
+      let open' := o.reg.filter fun r => (o.ended.find? (·.1 == r.1)).isNone
+      { o with ended := open'.map (fun r => (r.1, o.log.length)) ++ o.ended }
+    | .lab (.cancel i) => { o with cancelled := i :: o.cancelled }
+    | .subRet i r =>
+      let o := { o with returnedSubs := i :: o.returnedSubs }
+      -- C06: own error is returned if one occurred and the subscription was not also cancelled
+      if o.ownFailed.contains i && !o.cancelled.contains i && r != "own" && r != "replay" then
+        { o with viol := s!"C06:sub{i} failed but Subscribe returned {r}" :: o.viol }
+      else if r != "nil" && r != "own" && r != "replay" && r != "closed" then
+        { o with viol := s!"C06:Subscribe of sub{i} returned {r}" :: o.viol }
+      else o
+    | _ => o) {}
+  -- C03 / C17: per subscriber, live sends = the matching publications of its window of the log
+  let perSub := o.reg.foldl (fun acc r =>
+    let i := r.1
+    let endAt := ((o.ended.find? (·.1 == i)).map (·.2)).getD o.log.length
+    let window := (o.log.take endAt).drop r.2
+    let want := window.filter fun p => intersects ((sc.subTopics[i]?).getD []) ((sc.pubTopics[p]?).getD [])
+    let got := (o.live.filter (·.1 == i)).map (·.2)
+    if got == want then acc
+    else
+      let tag := if o.faults && !o.ownFailed.contains i then "C17" else "C03"
+      s!"{tag}:sub{i} was sent {got}, expected {want} (log {o.log}, registered at {r.2}, ended at {endAt})" :: acc) []
+  let stray := (o.live.filter fun l => (o.reg.find? (·.1 == l.1)).isNone).map fun l =>
+    s!"C03:sub{l.1} was sent {l.2} without being registered"
+  (o.viol ++ perSub ++ stray).reverse
+
+def factsTag (f : String) : List String :=
+  if f == "ok" then [] else
+  ((f.drop 4).toString.splitOn ",").map fun x =>
+    if x.startsWith "CALL-AFTER-RETURN" then "C06:" ++ x
+    else if x.startsWith "REPLAYER-USED-AFTER-PANIC" then "C17:" ++ x
+    else if x.startsWith "SEND-WITHOUT-FLUSH" || x.startsWith "STRAY-FLUSH" then "C03:" ++ x
+    else if x.startsWith "UNKNOWN-MESSAGE" then "C04:" ++ x
+    else "C07:" ++ x
+
+def joe (args : List String) : String × String :=
+  match args.getLast? with
+  | some g =>
+    if !g.startsWith "GO=" then ("need-observation", "need-observation") else
+    match (g.drop 3).toString.splitOn " ## " with
+    | [facts, scen, trace] =>
+      let sc := parseScenario scen
+      let evs := if trace == "-" then [] else (trace.splitOn ",").map parseEv
+      let init : St := GoSSE.Model.Joe.init
+        (fun i => (sc.subTopics[i]?).getD []) (fun _ => none) (fun p => (sc.pubTopics[p]?).getD []) (sc.rep != "none")
+      let v := validate init evs 0
+      let viol := factsTag facts ++ judge sc evs
+      (v.1, if viol.isEmpty then "ok" else "viol " ++ " ;; ".intercalate viol)
+    | _ => ("bad-observation", "bad-observation")
+  | none => ("bad-args", "bad-args")
 
 def handle (op : String) (args : List String) : Option (String × String) :=
-  match op, args with
-  | _, _ => none
+  match op with
+  | "JOE" => some (joe args)
+  | _ => none
 
 end Driver.JoeD
